@@ -40,6 +40,9 @@ type vfScenCase struct {
 	RefillS  int  `json:"refill_s,omitempty"`
 	// C17
 	TestAt []int `json:"test_at,omitempty"` // item indices at whose barrier a test recording is requested
+	// LocalClock: the local time zone is set so that the wall clock reads 12:59:58.8 (1) or 00:59:58.8 (2) when
+	// the stream starts, and the sender waits for the hour to pass half-way through it (no recording window)
+	LocalClock int `json:"local_clock,omitempty"`
 }
 
 func vfWindowStrings(kind int) (string, string) {
@@ -131,6 +134,24 @@ func vfRunScen(c vfScenCase) *vfScenOut {
 	for _, i := range c.TestAt {
 		testAt[i] = true
 	}
+	if c.LocalClock > 0 {
+		utc := time.Now().UTC()
+		sod := utc.Hour()*3600 + utc.Minute()*60 + utc.Second()
+		target := 12*3600 + 59*60 + 58
+		if c.LocalClock == 2 {
+			target = 59*60 + 58
+		}
+		off := target - sod
+		for off <= -12*3600 {
+			off += 24 * 3600
+		}
+		for off > 14*3600 {
+			off -= 24 * 3600
+		}
+		oldLocal := time.Local
+		time.Local = time.FixedZone("vf", off)
+		defer func() { time.Local = oldLocal }()
+	}
 	t0 := time.Now()
 	if err := conn.Write(vfHeaderBytes(sc.Cam)); err != nil {
 		o.err = err.Error()
@@ -140,6 +161,12 @@ func vfRunScen(c vfScenCase) *vfScenOut {
 	level := false
 	id := 0
 	for i, it := range sc.Items {
+		if c.LocalClock > 0 && i == len(sc.Items)/2 {
+			// wait for the local clock to pass the full hour
+			for time.Now().In(time.Local).Minute() == 59 {
+				time.Sleep(20 * time.Millisecond)
+			}
+		}
 		if c.SplitAt > 0 && i == c.SplitAt {
 			// the camera daemon reconnects: same daemon, same output directory, new connection
 			if cerr := conn.Close(); cerr == nil || !strings.Contains(cerr.Error(), "EOF") {
@@ -346,7 +373,7 @@ func vfScenValid(c vfScenCase) string {
 	if msg := vfSockValid(c.Sock); msg != "" {
 		return msg
 	}
-	if c.SplitAt < 0 || c.SplitAt > len(c.Sock.Items) || c.RemoveAt < 0 || c.RestoreAt < 0 || (c.RemoveAt > 0 && c.RestoreAt <= c.RemoveAt) || c.WindowKind < 0 || c.WindowKind > 2 || len(c.Sock.Items) > 600 {
+	if c.SplitAt < 0 || c.SplitAt > len(c.Sock.Items) || c.RemoveAt < 0 || c.RestoreAt < 0 || (c.RemoveAt > 0 && c.RestoreAt <= c.RemoveAt) || c.WindowKind < 0 || c.WindowKind > 2 || c.LocalClock < 0 || c.LocalClock > 2 || (c.LocalClock > 0 && c.WindowKind != 0) || len(c.Sock.Items) > 600 {
 		return "bad scenario"
 	}
 	if c.Throttle && (c.BucketS < 1 || c.RefillS < 1 || c.Sock.Min+c.Sock.Prev < 1) {
@@ -555,6 +582,10 @@ func vfGenC17E2E(t *rapid.T) vfScenCase {
 		sc.Min, sc.Max, sc.Prev, sc.Fast = 0, 0, 1, true
 	}
 	c.WindowKind = rapid.IntRange(0, 2).Draw(t, "window")
+	if rapid.IntRange(0, 19).Draw(t, "localclock") == 0 {
+		c.LocalClock = rapid.IntRange(1, 2).Draw(t, "whichhour")
+		c.WindowKind = 0
+	}
 	if rapid.Bool().Draw(t, "throttle") {
 		c.Throttle = true
 		c.BucketS = rapid.SampledFrom([]int{1, 2, 600}).Draw(t, "bucket")
